@@ -101,3 +101,40 @@ fn c02_host_followed_by_pipe_pins_the_end_of_the_url() {
     let req = Request::new("https://ads.net/a", "https://src.test/", "script").unwrap();
     assert!(!f.matches(&req, &mut RegexManager::default()), "`||ads.net|` must not match https://ads.net/a (the URL does not end after the host)");
 }
+
+/// OBL C02.witness.model_special_characters
+#[test]
+fn c02_special_characters_are_literal_text() {
+    // "literal text is matched case-insensitively as a substring": every character other than `*`, `^` and the anchoring `|` stands for
+    // itself, including the ones a regular expression gives a meaning to.  Every pattern up to length 3 (thorough: 4) over
+    // {a d + ( ) [ { | . ? \ ^ *}, unanchored, `|p` and `p|`, against URLs that contain these characters.
+    let thorough = std::env::var("VF_TIER").as_deref() == Ok("thorough");
+    let alphabet = [b'a', b'+', b'(', b'\\', b'^', b'*', b'[', b'{', b'|', b'.', b'?', b'd', b')'];
+    let mut bodies: Vec<String> = vec![];
+    let mut frontier = vec![String::new()];
+    for _ in 0..(if thorough { 4 } else { 3 }) {
+        let mut nextf = vec![];
+        for p in &frontier { for c in alphabet { let mut q = p.clone(); q.push(c as char); nextf.push(q); } }
+        bodies.extend(nextf.iter().cloned());
+        frontier = nextf;
+    }
+    let ok_body = |b: &str| !(b.starts_with('*') || b.ends_with('*') || b.contains("**") || b.contains("^^") || b.starts_with('|') || b.ends_with('|'));
+    let urls = ["https://x.org/a+(a\\a[a{a|a.a?a)", "https://x.org/aa+a(d\\d)1", "https://x.org/a|d", "https://x.org/a.d?a+d", "https://x.org/ad1\\d", "https://x.org/a?a=(a)&d=[d]", "https://x.org/a{a}a\\+"];
+    let mut cases = 0u64;
+    let mut mismatches: Vec<String> = vec![];
+    for body in bodies.iter().filter(|b| ok_body(b)) {
+        for (text, left, right) in [(body.clone(), false, false), (format!("|{body}"), true, false), (format!("{body}|"), false, true)] {
+            let Ok(f) = NetworkFilter::parse(&text, true, Default::default()) else { continue };
+            for url in urls {
+                let req = Request::new(url, "https://src.test/", "script").unwrap();
+                assert_eq!(req.url, url);
+                cases += 1;
+                let want = reference(None, body, left, right, url, (0, 0));
+                let got = f.matches(&req, &mut RegexManager::default());
+                if want != got && mismatches.len() < 40 { mismatches.push(format!("{text:?} vs {url}: reference {want}, engine {got}")); }
+            }
+        }
+    }
+    assert!(cases > 20000, "{cases}");
+    assert!(mismatches.is_empty(), "{} (capped) of {} cases differ from the reference; first ones: {:#?}", mismatches.len(), cases, &mismatches[..mismatches.len().min(12)]);
+}
